@@ -1033,6 +1033,9 @@ fn lower_choices(probe: &Config) -> Vec<(&'static str, Tree)> {
         ("d/UPPER.BIN".to_string(), file(b"U")), ("d/Y.TXT".to_string(), file(b"Y")), ("d/E".to_string(), Node::Dir), ("d/E/in.bin".to_string(), file(b"e")),
         // siblings whose names extend a directory name with characters that sort below '/':
         // string order and path-component order differ on them
+        // a DIRECTORY whose own name matches the extension patterns (an unpacked d/pack.bin/), with a
+        // file and a nested directory of the same kind inside
+        ("d/pack.bin".to_string(), Node::Dir), ("d/pack.bin/in.txt".to_string(), file(b"p")), ("d/pack.bin/inner.bin".to_string(), Node::Dir), ("d/notes.txt".to_string(), Node::Dir),
         ("d-old".to_string(), file(b"o")), ("d.bin".to_string(), file(b"b")), ("d e".to_string(), Node::Dir), ("d e/f".to_string(), file(b"f"))].into_iter().collect()));
     v.push(("d/", [("d".to_string(), Node::Dir)].into_iter().collect()));
     v.push((
